@@ -345,31 +345,18 @@ func (p *wat2wasmWorker) buildNameSection() error {
 				}
 			}
 
-			funcNames = append(funcNames, &wasm.NameAssoc{
-				Index: wasm.Index(importFuncCount),
-				Name:  x.FuncName,
-			})
+			if x.FuncName != "" {
+				funcNames = append(funcNames, &wasm.NameAssoc{
+					Index: wasm.Index(importFuncCount),
+					Name:  x.FuncName,
+				})
+			}
 			localNames = append(localNames, &wasm.NameMapAssoc{
 				Index:   wasm.Index(importFuncCount),
 				NameMap: localNameMap,
 			})
 			importFuncCount++
 		}
-	}
-	for _, typ := range p.mWat.Types {
-		var localNameMap wasm.NameMap
-		for j, local := range typ.Type.Params {
-			if local.Name != "" {
-				localNameMap = append(localNameMap, &wasm.NameAssoc{
-					Index: wasm.Index(j),
-					Name:  local.Name,
-				})
-			}
-		}
-		localNames = append(localNames, &wasm.NameMapAssoc{
-			Index:   wasm.Index(importFuncCount),
-			NameMap: localNameMap,
-		})
 	}
 	for i, fn := range p.mWat.Funcs {
 		var localNameMap wasm.NameMap
@@ -381,17 +368,22 @@ func (p *wat2wasmWorker) buildNameSection() error {
 				})
 			}
 		}
+		// locals are numbered after the parameters
 		for j, local := range fn.Locals {
-			localNameMap = append(localNameMap, &wasm.NameAssoc{
-				Index: wasm.Index(j),
-				Name:  local.Name,
-			})
+			if local.Name != "" {
+				localNameMap = append(localNameMap, &wasm.NameAssoc{
+					Index: wasm.Index(len(fn.Type.Params) + j),
+					Name:  local.Name,
+				})
+			}
 		}
 
-		funcNames = append(funcNames, &wasm.NameAssoc{
-			Index: wasm.Index(importFuncCount + i),
-			Name:  fn.Name,
-		})
+		if fn.Name != "" {
+			funcNames = append(funcNames, &wasm.NameAssoc{
+				Index: wasm.Index(importFuncCount + i),
+				Name:  fn.Name,
+			})
+		}
 
 		localNames = append(localNames, &wasm.NameMapAssoc{
 			Index:   wasm.Index(importFuncCount + i),
